@@ -34,4 +34,14 @@ PROPS = {
         "explanation": "Theorems C10_* (every scalar instance; all coordinate lists, all WF matrices, all resize/transpose histories) + correspondence after every step; oracle = dense crop/transpose/overlay reference.",
         "assumptions": ["sort.Sort returns a sorted permutation (C10_sort_irrelevant then makes the choice of algorithm irrelevant for distinct columns)"],
     },
+    "C09": {
+        "level_text": "Machine-checked theorems: for every scalar instance AddVec/SubVec/ScaleVec/MulVec return well-formed results (strictly increasing in-range indices) whose elements are exactly the stated IEEE operation of the operands' elements, VecDot is the KBN-compensated sum of the products of the matching entries in index order and is symmetric when the product commutes (proved for binary64 from FloatAxioms), mismatched dimensions are an error; for binary64 the element-wise results equal the dense IEEE results up to the sign of zero; over the reals KBN summation is exact and every operation is the dense operation. The accuracy clause (KBN error bound for binary64) is PARTIAL: not proved as a theorem; it is decided per run by an exact-integer oracle. Tied to /repo by running every exported method with all receiver aliasings and comparing bit for bit.",
+        "level_note": "Trusted: Coq kernel, vm_compute, FloatAxioms (binary64 spec), Reals axioms for the R theorems; hand-written model; harness. Receiver/operand aliasing cannot be expressed in the functional model: it is covered by correspondence only. The KBN error bound for binary64 and x*1 = x for the a==1 shortcut are not theorems.",
+        "technique": "Coq proof (generic two-pointer merge lemma, loop-structure lemma for VecDot, exactness over R) + bit-exact correspondence by vm_compute",
+        "families": ["C09"],
+        "go_tests": "",
+        "rule": "operand pairs with disjoint / nested / identical / one-empty / cancelling / random supports, dims 0..24, magnitudes from subnormal to 2^960, scale factors {0,1,-1,2,0.5,1e-300,5e-324,1e-200,-0,random}, 8% mismatched dimensions, 4% non-finite operands (malformed stream); every call repeated with receiver = fresh / v1 / v2 / all equal; MulVec on square and malformed shapes incl. a cancelling row; ill-conditioned Sum/Norm2 families (1,B,1,-B; Rump-like pairs; negative dominant addends). Non-trivial = both operands non-empty (VecOps), dim>1 (MulVec), >2 terms (Sum).",
+        "explanation": "Theorems C09_* + bit-exact correspondence of all observables; oracle = dense IEEE recomputation and exact-integer KBN bound.",
+        "assumptions": ["amd64 float64 arithmetic = Coq primitive floats (IEEE binary64, round to nearest even, no FMA contraction)"],
+    },
 }
